@@ -314,6 +314,44 @@ func c17lifecycle(env *core.Env, cs c17case, res *core.CaseResult) {
 		do(fsx.Step{K: "Open", P: "f", Flag: []int{os.O_RDWR, os.O_WRONLY, os.O_RDWR | os.O_APPEND}[r.Intn(3)], Slot: s})
 	}
 	unlinked := false
+	// the set of names must follow the reference
+	namesFollow := func(st fsx.Step, sit string) bool {
+		for _, name := range []string{"f", "g", "d/g"} {
+			_, serr := hackpadfs.Stat(sub.fs, name)
+			_, rerr := hackpadfs.Stat(ref, name)
+			if (serr == nil) != (rerr == nil) {
+				what := "name-missing"
+				if serr == nil {
+					what = "resurrected"
+				}
+				res.Violate(fmt.Sprintf("C17|%s|lifecycle|%s|%s|%s", subjKind17(cs.Subject), st.K, sit, what),
+					fmt.Sprintf("[%s] after %s: %q exists=%v, os exists=%v", cs.Subject, st, name, serr == nil, rerr == nil), map[string]any{"subject": cs.Subject, "script": fsx.HistoryString(script)})
+				return false
+			}
+		}
+		return true
+	}
+	defer func() {
+		// closing the handles (whatever they did before the name went away) must not change the set of names either
+		if len(res.Violations) > 0 || res.Inconclusive != "" {
+			return
+		}
+		for s := 0; s < nh; s++ {
+			st := fsx.Step{K: "H.Close", Slot: s}
+			sr, _ := do(st)
+			if sr.Panic != "" {
+				res.Violate(fmt.Sprintf("C17|%s|lifecycle|H.Close|panic", cs.Subject), fmt.Sprintf("[%s] %s panicked: %s", cs.Subject, st, sr.Panic), map[string]any{"script": fsx.HistoryString(script)})
+				return
+			}
+			sit := "linked"
+			if unlinked {
+				sit = "after-unlink"
+			}
+			if !namesFollow(st, sit) {
+				return
+			}
+		}
+	}()
 	for i := 0; i < 4+r.Intn(8); i++ {
 		var st fsx.Step
 		if unlinked && cs.Seed%2 == 1 {
@@ -346,6 +384,9 @@ func c17lifecycle(env *core.Env, cs c17case, res *core.CaseResult) {
 			if !same {
 				res.Violate(fmt.Sprintf("C17|%s|lifecycle|%s|after-unlink|handle-differs-from-os", subjKind17(cs.Subject), st.K),
 					fmt.Sprintf("[%s] %s on a handle opened before the name was removed/renamed: %s; os.File: %s", cs.Subject, st, sr, rr), map[string]any{"subject": cs.Subject, "script": fsx.HistoryString(script)})
+				return
+			}
+			if !namesFollow(st, "after-unlink") {
 				return
 			}
 			continue
@@ -383,23 +424,12 @@ func c17lifecycle(env *core.Env, cs c17case, res *core.CaseResult) {
 		if len(st.K) > 2 && st.K[:2] == "H." && unlinked {
 			res.Count("writes_after_unlink", 1)
 		}
-		// the set of names must follow the reference
-		for _, name := range []string{"f", "g", "d/g"} {
-			_, serr := hackpadfs.Stat(sub.fs, name)
-			_, rerr := hackpadfs.Stat(ref, name)
-			if (serr == nil) != (rerr == nil) {
-				what := "name-missing"
-				if serr == nil {
-					what = "resurrected"
-				}
-				sit := "linked"
-				if unlinked {
-					sit = "after-unlink"
-				}
-				res.Violate(fmt.Sprintf("C17|%s|lifecycle|%s|%s|%s", subjKind17(cs.Subject), st.K, sit, what),
-					fmt.Sprintf("[%s] after %s: %q exists=%v, os exists=%v", cs.Subject, st, name, serr == nil, rerr == nil), map[string]any{"subject": cs.Subject, "script": fsx.HistoryString(script)})
-				return
-			}
+		sit := "linked"
+		if unlinked {
+			sit = "after-unlink"
+		}
+		if !namesFollow(st, sit) {
+			return
 		}
 	}
 }
